@@ -44,6 +44,7 @@ func (e *zzLiveEngine) Start(string, ...engine.ControllerOption) error {
 //gosym:cover foreign-crd-live foreign-crd-deleting own-crd uncontrolled-crd-adopted fault-hit
 func HarnessC02Definition() {
 	s := kube.New()
+	s.PreserveStatus = true // CRDs have a status subresource: applying the rendered CRD keeps Established
 	s.Register(&v1.CompositeResourceDefinition{}, &v1.CompositeResourceDefinitionList{}, "apiextensions.crossplane.io", "CompositeResourceDefinition")
 	s.Register(&extv1.CustomResourceDefinition{}, &extv1.CustomResourceDefinitionList{}, "apiextensions.k8s.io", "CustomResourceDefinition")
 
